@@ -27,6 +27,28 @@
 //! own observations - "sender is healthy" - which are not part of "the same
 //! set of updates").
 //!
+//! Configuration C (`Mode::Threads`): ONE real `GossipMembershipManager`
+//! (member n0, peers n1..) that receives the membership updates of the case
+//! as the messages a node receives them in: `Sync{sender, states}` built from
+//! the multiset (any subset, any batching, repeated), `Alive` (refute),
+//! `Suspect` / `suspect_node` (suspect), `gossip_round` after the suspicion
+//! timeout (fail), successful `PingAck` (mark-healthy). A sequential prefix
+//! (`steps`) is followed by 1-3 scheduled threads (`threads`, one program
+//! each) that call into the SAME manager concurrently: the manager is `Sync`,
+//! every entry point takes `&self`, and in production its `run()` loop and the
+//! transport's receive tasks do call it from different threads. The
+//! manager's lock acquisitions (`tensor_chain.lock`, gossip.rs uses
+//! `crate::sync_compat`) are the schedule points, the schedule is part of the
+//! case. Clauses (2) and (3) are judged on the view every thread reads through
+//! the public API after each of its completed calls (one read-locked snapshot;
+//! the comparison with the previous snapshot is made before the observing
+//! thread can be switched out, so snapshots are compared in the order in which
+//! they were taken). A thread interleaving of deliveries is a delivery order at
+//! the granularity of the manager's own critical sections; the statement's
+//! "every permutation and batching of their delivery, interleaved with local
+//! ... events" and "a node's recorded incarnation ... never decrease" do not
+//! exempt overlapping deliveries, so configuration C gives verdicts.
+//!
 //! Who "announces" an incarnation (clause 3). In the API an incarnation of
 //! member m originates from m in exactly three ways: its own node state
 //! (`update_local(m, Healthy, inc)` executed on m), an `Alive{m, inc}` message
@@ -43,17 +65,21 @@
 //!     receipt of m's Alive message) and an `Announce` step as the replica's
 //!     own member announcing its current counter;
 //!   * in configuration B reads the announcements off the wire: `Alive{m, i}`
-//!     messages sent by m.
+//!     messages sent by m;
+//!   * in configuration C counts an `Alive{m, inc}` message as m announcing
+//!     `inc` from the moment the call that delivers it starts.
 //! With this encoding a correct implementation can never trip clause (3).
 
 use crate::ctx::RunCtx;
 use crate::driver::{drop_chunks, RunOut, Scenario, Tier, Violation};
 use crate::net::{new_net, now_or_never, SimTransport};
 use crate::rng::Rng;
+use crate::sched;
 use serde::{Deserialize, Serialize};
 use serde_json::{json, Value};
 use std::collections::{BTreeMap, BTreeSet};
-use std::sync::Arc;
+use std::sync::atomic::{AtomicBool, Ordering};
+use std::sync::{Arc, Mutex, MutexGuard};
 use tensor_chain::gossip::{GossipConfig, GossipMembershipManager, GossipMessage, GossipNodeState, LWWMembershipState};
 use tensor_chain::membership::NodeHealth;
 use tensor_chain::network::Message;
@@ -93,6 +119,15 @@ pub enum Step {
     NetDeliver { pick: u8 },
     NetDrop { pick: u8 },
     NetDup { pick: u8 },
+    // ---- configuration C: calls into the one manager n0 (also `Round`, `SuspectNode`, `Advance`; their `r` is ignored) ----
+    /// `handle_gossip(Sync{sender: a peer, states: the listed multiset updates, sender_time: time})`
+    MsgSync { from: u8, items: Vec<u8>, time: u8 },
+    /// `handle_gossip(Alive{m, inc})`: m announces `inc`
+    MsgAlive { m: u8, inc: u8 },
+    /// `handle_gossip(Suspect{reporter: a peer, suspect: m, incarnation: inc})`
+    MsgSuspect { from: u8, m: u8, inc: u8 },
+    /// `handle_gossip(PingAck{origin: a peer, target: m, sequence: 0, success: ok})`
+    MsgPingAck { from: u8, m: u8, ok: bool },
 }
 
 #[derive(Serialize, Deserialize, Clone, Copy, Debug, PartialEq)]
@@ -100,6 +135,7 @@ pub enum Mode {
     Merge,
     Local,
     Manager,
+    Threads,
 }
 
 #[derive(Serialize, Deserialize, Clone, Debug)]
@@ -113,6 +149,12 @@ pub struct Case {
     pub fanout: u8,
     pub max_states: u8,
     pub susp_ms: u32,
+    // configuration C: after `steps` (sequential prefix) one scheduled thread per program
+    #[serde(default)]
+    pub threads: Vec<Vec<Step>>,
+    /// baton schedule (see `sched::run_threads`)
+    #[serde(default)]
+    pub schedule: Vec<u8>,
 }
 
 pub struct C17;
@@ -169,6 +211,58 @@ struct Mono {
     lamport: u64,
 }
 
+/// Clause (2), first half, on one snapshot of a node's view:
+/// "A node's recorded incarnation for any member ... never decrease[s]"
+fn check_incarnations(cfg: &str, op: &str, who: usize, prev: &Mono, view: &[Val], hist: &dyn Fn() -> String) -> Option<Violation> {
+    for (m, _h, inc, _ts) in view {
+        if let Some(old) = prev.inc.get(m) {
+            if inc < old {
+                return Some(Violation {
+                    class: format!("c2-incarnation-decreased:{cfg}:{op}"),
+                    detail: format!(
+                        "node r{who}: recorded incarnation of member n{m} went from {old} to {inc} in step `{op}`; view now {}; history: {}",
+                        show(view),
+                        hist()
+                    ),
+                });
+            }
+        }
+    }
+    None
+}
+
+/// Clause (2), second half: "[a node's] logical clock never decrease[s]"
+fn check_lamport(cfg: &str, op: &str, who: usize, prev: &Mono, lamport: u64, hist: &dyn Fn() -> String) -> Option<Violation> {
+    if lamport < prev.lamport {
+        return Some(Violation {
+            class: format!("c2-lamport-decreased:{cfg}:{op}"),
+            detail: format!("node r{who}: logical clock went from {} to {lamport} in step `{op}`; history: {}", prev.lamport, hist()),
+        });
+    }
+    None
+}
+
+/// Clause (3): "a member is never recorded as failed at an incarnation higher
+/// than one that member itself announced"
+fn check_failed(cfg: &str, op: &str, who: usize, view: &[Val], announced: &[u64], hist: &dyn Fn() -> String) -> Option<Violation> {
+    for (m, h, inc, _ts) in view {
+        if *h == 2 {
+            let ann = announced.get(*m as usize).copied().unwrap_or(0);
+            if *inc > ann {
+                return Some(Violation {
+                    class: format!("c3-failed-above-announced:{cfg}:{op}"),
+                    detail: format!(
+                        "node r{who}: member n{m} recorded Failed at incarnation {inc}, but the greatest incarnation n{m} itself announced is {ann} (step `{op}`); view {}; history: {}",
+                        show(view),
+                        hist()
+                    ),
+                });
+            }
+        }
+    }
+    None
+}
+
 /// Clauses (2) and (3), evaluated on one node after one step.
 ///
 /// (2) "A node's recorded incarnation for any member and its logical clock
@@ -185,40 +279,14 @@ fn check_backwards(
     announced: &[u64],
     hist: &dyn Fn() -> String,
 ) -> Option<Violation> {
-    for (m, _h, inc, _ts) in view {
-        if let Some(old) = prev.inc.get(m) {
-            if inc < old {
-                return Some(Violation {
-                    class: format!("c2-incarnation-decreased:{cfg}:{op}"),
-                    detail: format!(
-                        "node r{who}: recorded incarnation of member n{m} went from {old} to {inc} in step `{op}`; view now {}; history: {}",
-                        show(view),
-                        hist()
-                    ),
-                });
-            }
-        }
+    if let Some(v) = check_incarnations(cfg, op, who, prev, view, hist) {
+        return Some(v);
     }
-    if lamport < prev.lamport {
-        return Some(Violation {
-            class: format!("c2-lamport-decreased:{cfg}:{op}"),
-            detail: format!("node r{who}: logical clock went from {} to {lamport} in step `{op}`; history: {}", prev.lamport, hist()),
-        });
+    if let Some(v) = check_lamport(cfg, op, who, prev, lamport, hist) {
+        return Some(v);
     }
-    for (m, h, inc, _ts) in view {
-        if *h == 2 {
-            let ann = announced.get(*m as usize).copied().unwrap_or(0);
-            if *inc > ann {
-                return Some(Violation {
-                    class: format!("c3-failed-above-announced:{cfg}:{op}"),
-                    detail: format!(
-                        "node r{who}: member n{m} recorded Failed at incarnation {inc}, but the greatest incarnation n{m} itself announced is {ann} (step `{op}`); view {}; history: {}",
-                        show(view),
-                        hist()
-                    ),
-                });
-            }
-        }
+    if let Some(v) = check_failed(cfg, op, who, view, announced, hist) {
+        return Some(v);
     }
     for (m, _h, inc, _ts) in view {
         prev.inc.insert(*m, *inc);
@@ -228,18 +296,51 @@ fn check_backwards(
 }
 
 /// depth probes: the conditions clauses (2)/(3) are about were actually reached
-fn depth_probes(ctx: &RunCtx, cfg_b: bool, before: &[Val], after: &[Val]) {
+fn depth_probes(ctx: &RunCtx, cfg: char, before: &[Val], after: &[Val]) {
+    let (failed_pos, raised) = match cfg {
+        'B' => ("mgr_failed_at_refuted_incarnation", "mgr_incarnation_raised"),
+        'C' => ("thr_failed_at_refuted_incarnation", "thr_incarnation_raised"),
+        _ => ("failed_recorded_at_positive_incarnation", "incarnation_raised"),
+    };
     for (m, h, inc, _) in after {
         let old = before.iter().find(|b| b.0 == *m);
         if *h == 2 && *inc > 0 && old.map_or(true, |o| o.1 != 2 || o.2 != *inc) {
-            ctx.probe(if cfg_b { "mgr_failed_at_refuted_incarnation" } else { "failed_recorded_at_positive_incarnation" });
+            ctx.probe(failed_pos);
         }
         if let Some(o) = old {
             if *inc > o.2 {
-                ctx.probe(if cfg_b { "mgr_incarnation_raised" } else { "incarnation_raised" });
+                ctx.probe(raised);
             }
         }
     }
+}
+
+/// Effective values of the multiset and the greatest incarnation each member
+/// announces inside it. Every member starts at incarnation 0
+/// (GossipMembershipManager::new registers the local node with
+/// update_local(local, Healthy, 0)); a third party can only repeat an
+/// incarnation it learnt from the member, so third-party updates are clamped.
+fn effective_vals(case: &Case, members: usize) -> (Vec<Val>, Vec<u64>) {
+    let mut announced_ms = vec![0u64; members];
+    for u in &case.updates {
+        if u.own {
+            let m = u.m as usize % members;
+            announced_ms[m] = announced_ms[m].max(u64::from(u.inc));
+        }
+    }
+    let vals: Vec<Val> = case
+        .updates
+        .iter()
+        .map(|u| {
+            let m = u.m as usize % members;
+            if u.own {
+                (m as u8, 0, u64::from(u.inc), u64::from(u.ts))
+            } else {
+                (m as u8, u.h % 4, u64::from(u.inc).min(announced_ms[m]), u64::from(u.ts))
+            }
+        })
+        .collect();
+    (vals, announced_ms)
 }
 
 // ---------------------------------------------------------------------------
@@ -263,30 +364,7 @@ fn run_a(case: &Case, ctx: &Arc<RunCtx>) -> RunOut {
     let members = case.members.clamp(1, 8) as usize;
     let nrep = case.replicas.clamp(1, 8) as usize;
 
-    // greatest incarnation each member announces inside the multiset; every
-    // member starts at incarnation 0 (GossipMembershipManager::new registers
-    // the local node with update_local(local, Healthy, 0)).
-    let mut announced_ms = vec![0u64; members];
-    for u in &case.updates {
-        if u.own {
-            let m = u.m as usize % members;
-            announced_ms[m] = announced_ms[m].max(u64::from(u.inc));
-        }
-    }
-    // effective values of the multiset
-    let vals: Vec<Val> = case
-        .updates
-        .iter()
-        .map(|u| {
-            let m = u.m as usize % members;
-            if u.own {
-                (m as u8, 0, u64::from(u.inc), u64::from(u.ts))
-            } else {
-                // a third party can only repeat an incarnation it learnt from the member
-                (m as u8, u.h % 4, u64::from(u.inc).min(announced_ms[m]), u64::from(u.ts))
-            }
-        })
-        .collect();
+    let (vals, announced_ms) = effective_vals(case, members);
     // announcements so far: multiset + Refute/Announce steps executed so far
     let mut announced = announced_ms.clone();
 
@@ -484,7 +562,7 @@ fn run_a(case: &Case, ctx: &Arc<RunCtx>) -> RunOut {
         let (r, op) = touched;
         let view = view_of(reps[r].st.all_states());
         let lam = reps[r].st.lamport_time();
-        depth_probes(ctx, false, &reps[r].last_view, &view);
+        depth_probes(ctx, 'A', &reps[r].last_view, &view);
         reps[r].last_view = view.clone();
 
         // clauses (2) and (3), after every step, on the replica it touched
@@ -786,7 +864,7 @@ fn run_b(case: &Case, ctx: &Arc<RunCtx>) -> RunOut {
                 ctx.probe("mgr_failed_recorded");
             }
             ctx.event(&format!("   n{i}: {} L={lam}", show(&view)));
-            depth_probes(ctx, true, &lasts[i], &view);
+            depth_probes(ctx, 'B', &lasts[i], &view);
             lasts[i] = view.clone();
             let lg = &log;
             let h = move || lg.join("; ");
@@ -802,13 +880,360 @@ fn run_b(case: &Case, ctx: &Arc<RunCtx>) -> RunOut {
 }
 
 // ---------------------------------------------------------------------------
+// configuration C
+// ---------------------------------------------------------------------------
+
+const C_MAX_STEPS: usize = 20_000;
+
+#[derive(Default)]
+struct CShared {
+    mono: Mono,
+    announced: Vec<u64>,
+    log: Vec<String>,
+    /// per thread: the call it is inside (description, member the call is about)
+    inflight: Vec<Option<(String, Option<u8>)>>,
+    last_view: Vec<Val>,
+    viol: Option<Violation>,
+    view_changes: u64,
+    overlapped: bool,
+}
+
+enum CCall {
+    Gossip(GossipMessage),
+    SuspectNode(String),
+    Round,
+}
+
+struct CWorld {
+    mgr: GossipMembershipManager,
+    rt: tokio::runtime::Runtime,
+    ctx: Arc<RunCtx>,
+    sh: Mutex<CShared>,
+    vals: Vec<Val>,
+    members: usize,
+    interval_ms: u64,
+    /// more than one thread is calling (only picks the suffix of the violation class)
+    concurrent: AtomicBool,
+}
+
+impl CWorld {
+    /// never held across a call into the manager (i.e. across a schedule point)
+    fn sh(&self) -> MutexGuard<'_, CShared> {
+        match self.sh.lock() {
+            Ok(g) => g,
+            Err(p) => p.into_inner(),
+        }
+    }
+
+    fn history(g: &CShared) -> String {
+        let inflight: Vec<String> = g.inflight.iter().enumerate().filter_map(|(i, x)| x.as_ref().map(|(l, _)| format!("t{i}:{l}"))).collect();
+        format!("{}; calls in flight at the observation: [{}]", g.log.join("; "), inflight.join(", "))
+    }
+
+    /// One call into the manager by thread `t`, then the observation of clauses (2)/(3).
+    fn exec(&self, t: usize, tag: &str, step: &Step) {
+        if self.sh().viol.is_some() {
+            return;
+        }
+        let n = self.members;
+        // a member other than the manager itself (senders / reporters of messages)
+        let peer = |x: u8| 1 + (x as usize % (n - 1));
+        let (line, subject, call, op): (String, Option<u8>, CCall, &'static str) = match step {
+            Step::MsgSync { from, items, time } => {
+                let f = peer(*from);
+                let bv: Vec<Val> = items.iter().map(|i| *i as usize).filter(|i| *i < self.vals.len()).map(|i| self.vals[i]).collect();
+                let states: Vec<GossipNodeState> =
+                    bv.iter().map(|(m, h, inc, ts)| GossipNodeState::with_wall_time(name(*m as usize), health(*h), *ts, *inc, 0)).collect();
+                if states.len() > 1 {
+                    self.ctx.fault_fired("batched");
+                }
+                (
+                    format!("Sync(from n{f}, time {time}, {})", show(&bv)),
+                    Some(f as u8),
+                    CCall::Gossip(GossipMessage::Sync { sender: name(f), states, sender_time: u64::from(*time) }),
+                    "sync",
+                )
+            },
+            Step::MsgAlive { m, inc } => {
+                let m = *m as usize % n;
+                (
+                    format!("Alive(n{m} inc{inc})"),
+                    Some(m as u8),
+                    CCall::Gossip(GossipMessage::Alive { node_id: name(m), incarnation: u64::from(*inc) }),
+                    "alive",
+                )
+            },
+            Step::MsgSuspect { from, m, inc } => {
+                let (f, m) = (peer(*from), *m as usize % n);
+                (
+                    format!("Suspect(n{m} inc{inc} by n{f})"),
+                    Some(m as u8),
+                    CCall::Gossip(GossipMessage::Suspect { reporter: name(f), suspect: name(m), incarnation: u64::from(*inc) }),
+                    "suspect",
+                )
+            },
+            Step::MsgPingAck { from, m, ok } => {
+                let (f, m) = (peer(*from), *m as usize % n);
+                (
+                    format!("PingAck(n{f} about n{m} ok={ok})"),
+                    Some(m as u8),
+                    CCall::Gossip(GossipMessage::PingAck { origin: name(f), target: name(m), sequence: 0, success: *ok }),
+                    "pingack",
+                )
+            },
+            Step::SuspectNode { m, .. } => {
+                let m = *m as usize % n;
+                if m == 0 {
+                    return; // a node does not suspect itself
+                }
+                (format!("suspect_node(n{m})"), Some(m as u8), CCall::SuspectNode(name(m)), "suspect_node")
+            },
+            Step::Round { .. } => {
+                self.ctx.advance_ms(self.interval_ms);
+                ("gossip_round".to_string(), None, CCall::Round, "gossip_round")
+            },
+            Step::Advance { ms } => {
+                self.ctx.advance_ms(u64::from(*ms));
+                let line = format!("t{t}.{tag} advance {ms}ms");
+                self.ctx.event(&line);
+                self.sh().log.push(line);
+                return;
+            },
+            _ => return, // steps of the other configurations: nothing to act on
+        };
+        {
+            let mut g = self.sh();
+            if let Step::MsgAlive { m, inc } = step {
+                // the Alive message was sent by m: from now on m has announced inc
+                let m = *m as usize % n;
+                g.announced[m] = g.announced[m].max(u64::from(*inc));
+            }
+            if g.inflight.iter().enumerate().any(|(i, x)| i != t && x.is_some()) {
+                g.overlapped = true;
+                self.ctx.probe("thr_calls_overlapped");
+                if g.inflight.iter().enumerate().any(|(i, x)| i != t && x.as_ref().is_some_and(|(_, sub)| sub.is_some() && *sub == subject)) {
+                    self.ctx.probe("thr_calls_about_same_member_overlapped");
+                }
+            }
+            g.inflight[t] = Some((line.clone(), subject));
+            g.log.push(format!("t{t}.{tag} start {line}"));
+        }
+        self.ctx.event(&format!("t{t}.{tag} start {line}"));
+        self.ctx.fp(op);
+        {
+            let _e = self.rt.enter();
+            match call {
+                CCall::Gossip(g) => self.mgr.handle_gossip(g),
+                CCall::SuspectNode(m) => {
+                    let _ = now_or_never(self.mgr.suspect_node(&m));
+                },
+                CCall::Round => {
+                    let _ = now_or_never(self.mgr.gossip_round());
+                },
+            }
+        }
+        {
+            let mut g = self.sh();
+            g.inflight[t] = None;
+            g.log.push(format!("t{t}.{tag} done"));
+        }
+        self.observe(t, op, tag);
+    }
+
+    /// Read the node's view through the public API and judge clauses (2)/(3) on it.
+    /// `membership_view` / `lamport_time` are one read-locked snapshot each; no
+    /// schedule point lies between the return of either and the comparison with
+    /// the previous snapshot, so snapshots are judged in the order they were taken.
+    fn observe(&self, t: usize, op: &'static str, tag: &str) {
+        let cls = if self.concurrent.load(Ordering::Relaxed) { "concurrent" } else { op };
+        let view = view_of(self.mgr.membership_view().iter());
+        {
+            let mut g = self.sh();
+            if g.viol.is_some() {
+                return;
+            }
+            for (m, _h, inc, _) in &view {
+                if let Some(o) = g.last_view.iter().find(|b| b.0 == *m) {
+                    if *inc > o.2 && g.inflight.iter().enumerate().any(|(i, x)| i != t && x.as_ref().is_some_and(|(_, sub)| *sub == Some(*m))) {
+                        // the window clause (2) is about under concurrency: the recorded incarnation of m
+                        // rose while another thread is inside a call that concerns m
+                        self.ctx.probe("thr_incarnation_raised_under_inflight_call");
+                    }
+                }
+            }
+            if view.iter().any(|v| v.1 == 2) && !g.last_view.iter().any(|v| v.1 == 2) {
+                self.ctx.probe("thr_failed_recorded");
+            }
+            depth_probes(&self.ctx, 'C', &g.last_view, &view);
+            if view.iter().map(|v| (v.0, v.1, v.2)).ne(g.last_view.iter().map(|v| (v.0, v.1, v.2))) {
+                g.view_changes += 1;
+                match op {
+                    "sync" => self.ctx.probe("thr_sync_changed_view"),
+                    "alive" => self.ctx.probe("thr_alive_changed_view"),
+                    _ => {},
+                }
+            }
+            let v = {
+                let h = || Self::history(&g);
+                check_incarnations("C", cls, 0, &g.mono, &view, &h).or_else(|| check_failed("C", cls, 0, &view, &g.announced, &h))
+            };
+            if v.is_some() {
+                g.viol = v;
+                return;
+            }
+            for (m, _h, inc, _ts) in &view {
+                g.mono.inc.insert(*m, *inc);
+            }
+            g.last_view = view.clone();
+        }
+        let lam = self.mgr.lamport_time();
+        {
+            let mut g = self.sh();
+            if g.viol.is_some() {
+                return;
+            }
+            let v = {
+                let h = || Self::history(&g);
+                check_lamport("C", cls, 0, &g.mono, lam, &h)
+            };
+            if v.is_some() {
+                g.viol = v;
+                return;
+            }
+            g.mono.lamport = lam;
+            let line = format!("t{t}.{tag} observed {} L={lam}", show(&view));
+            g.log.push(line.clone());
+            drop(g);
+            self.ctx.event(&line);
+        }
+    }
+}
+
+fn run_c(case: &Case, ctx: &Arc<RunCtx>) -> RunOut {
+    let mut out = RunOut::default();
+    let members = case.members.clamp(2, 4) as usize;
+    let all: Vec<String> = (0..members).map(name).collect();
+    let net = new_net();
+    // executor of the manager's tokio::spawn'ed sends (see run_b); threads enter its
+    // handle, the queue is drained by the controller between the phases
+    let rt = match tokio::runtime::Builder::new_current_thread().build() {
+        Ok(rt) => rt,
+        Err(e) => {
+            out.harness_error = Some(format!("tokio current-thread runtime: {e}"));
+            return out;
+        },
+    };
+    let cfg = GossipConfig {
+        fanout: case.fanout.clamp(1, 3) as usize,
+        gossip_interval_ms: 200,
+        suspicion_timeout_ms: u64::from(case.susp_ms.max(1)),
+        max_states_per_message: case.max_states.max(1) as usize,
+        geometric_routing: false,
+        require_signatures: false,
+        ..GossipConfig::default()
+    };
+    let interval_ms = cfg.gossip_interval_ms;
+    let mgr = GossipMembershipManager::new(name(0), cfg, SimTransport::new(&name(0), &all, &net));
+    for p in all.iter().skip(1) {
+        mgr.add_peer(p.clone());
+    }
+    let (vals, announced_ms) = effective_vals(case, members);
+    let nthreads = case.threads.len().min(3);
+    ctx.event(&format!(
+        "C members={members} threads={nthreads} suspicion_timeout_ms={} multiset={}",
+        case.susp_ms.max(1),
+        vals.iter().enumerate().map(|(i, v)| format!("#{i}={}", show(&[*v]))).collect::<Vec<_>>().join(" ")
+    ));
+    let world = Arc::new(CWorld {
+        mgr,
+        rt,
+        ctx: ctx.clone(),
+        sh: Mutex::new(CShared { announced: announced_ms, inflight: vec![None; nthreads.max(1)], ..CShared::default() }),
+        vals,
+        members,
+        interval_ms,
+        concurrent: AtomicBool::new(false),
+    });
+    let drain = |w: &CWorld| -> Result<(), String> {
+        w.rt.block_on(async {
+            for _ in 0..4 {
+                tokio::task::yield_now().await;
+            }
+        });
+        let alive = w.rt.metrics().num_alive_tasks();
+        if alive != 0 {
+            return Err(format!("{alive} spawned task(s) still pending after drain (a send suspended)"));
+        }
+        Ok(())
+    };
+    let finish = |w: &CWorld, mut out: RunOut| -> RunOut {
+        let g = w.sh();
+        out.violation = g.viol.clone();
+        out.nontrivial = out.violation.is_some() || (g.view_changes > 0 && (nthreads < 2 || g.overlapped));
+        out
+    };
+
+    world.observe(0, "start", "init");
+    // sequential prefix
+    for (sn, step) in case.steps.iter().enumerate() {
+        world.exec(0, &format!("p{sn}"), step);
+        if let Err(e) = drain(&world) {
+            out.harness_error = Some(e);
+            return out;
+        }
+        if world.sh().viol.is_some() {
+            return finish(&world, out);
+        }
+    }
+    if nthreads == 0 {
+        return finish(&world, out);
+    }
+    world.concurrent.store(nthreads > 1, Ordering::Relaxed);
+    let mut bodies: Vec<sched::Body> = Vec::new();
+    for (t, prog) in case.threads.iter().take(nthreads).enumerate() {
+        let w = world.clone();
+        let prog = prog.clone();
+        bodies.push(Box::new(move || {
+            for (k, step) in prog.iter().enumerate() {
+                w.exec(t, &format!("{k}"), step);
+                sched::yield_point("c17.op");
+            }
+        }));
+    }
+    let res = sched::run_threads(ctx, &case.schedule, C_MAX_STEPS, bodies);
+    if res.exhausted {
+        out.harness_error = Some(format!("schedule exhausted after {} steps (threads still running)", res.steps));
+        return out;
+    }
+    if !res.panics.is_empty() {
+        out.harness_error = Some(format!("panic on a scheduled thread: {}", res.panics.join(" | ")));
+        return out;
+    }
+    for (site, nn) in &res.preempted_at {
+        if *nn > 0 && site.starts_with("tensor_chain.lock") {
+            ctx.probe("thr_preempted_at_manager_lock");
+        }
+        ctx.fp(&format!("pre:{site}"));
+    }
+    if res.trace_sites.iter().any(|s| s.ends_with(".wait")) {
+        ctx.probe("thr_waited_for_manager_lock");
+    }
+    ctx.fp(&format!("sw{}", res.switches.min(12)));
+    ctx.event(&format!("threads done: steps={} switches={}", res.steps, res.switches));
+    if let Err(e) = drain(&world) {
+        out.harness_error = Some(e);
+        return out;
+    }
+    world.observe(0, "end", "final");
+    finish(&world, out)
+}
+
+// ---------------------------------------------------------------------------
 // generation, shrinking
 // ---------------------------------------------------------------------------
 
-fn gen_a(rng: &mut Rng, mode: Mode) -> Case {
-    let members = rng.range(2, 4) as u8;
-    let replicas = rng.range(2, 4) as u8;
-    let n_upd = rng.range(2, 12) as usize;
+/// the multiset: updates over `members` members, tiny incarnation / timestamp ranges, ties injected
+fn gen_updates(rng: &mut Rng, members: u8, n_upd: usize) -> (Vec<Upd>, u64) {
     let inc_max = *rng.pick(&[0u64, 1, 1, 2, 2]);
     let ts_max = *rng.pick(&[0u64, 1, 2, 3, 3]);
     let tie_w = rng.range(1, 4);
@@ -830,6 +1255,14 @@ fn gen_a(rng: &mut Rng, mode: Mode) -> Case {
             });
         }
     }
+    (updates, inc_max)
+}
+
+fn gen_a(rng: &mut Rng, mode: Mode) -> Case {
+    let members = rng.range(2, 4) as u8;
+    let replicas = rng.range(2, 4) as u8;
+    let n_upd = rng.range(2, 12) as usize;
+    let (updates, inc_max) = gen_updates(rng, members, n_upd);
     // per-replica delivery plan: permutation + duplicates, cut into batches
     let mut plans: Vec<Vec<Step>> = Vec::new();
     for r in 0..replicas {
@@ -900,7 +1333,7 @@ fn gen_a(rng: &mut Rng, mode: Mode) -> Case {
             }
         },
     }
-    Case { mode, members, replicas, updates, steps, fanout: 1, max_states: 20, susp_ms: 500 }
+    Case { mode, members, replicas, updates, steps, fanout: 1, max_states: 20, susp_ms: 500, threads: Vec::new(), schedule: Vec::new() }
 }
 
 fn gen_b(rng: &mut Rng) -> Case {
@@ -928,6 +1361,55 @@ fn gen_b(rng: &mut Rng) -> Case {
         fanout: rng.range(1, 3) as u8,
         max_states: *rng.pick(&[1u8, 2, 20, 20]),
         susp_ms,
+        threads: Vec::new(),
+        schedule: Vec::new(),
+    }
+}
+
+/// one call into the manager of configuration C
+fn gen_c_op(rng: &mut Rng, members: u8, n_upd: usize, inc_max: u64) -> Step {
+    let m_of = |rng: &mut Rng| rng.below(u64::from(members)) as u8;
+    match rng.below(100) {
+        0..=34 => {
+            // any subset of the multiset in any grouping, repeated at will; an empty Sync is legal too
+            let k = if n_upd == 0 { 0 } else { *rng.pick(&[0usize, 1, 1, 2, 2, 3, 4]) };
+            let items: Vec<u8> = (0..k).map(|_| rng.below(n_upd as u64) as u8).collect();
+            Step::MsgSync { from: rng.below(3) as u8, items, time: rng.below(5) as u8 }
+        },
+        35..=54 => Step::MsgAlive { m: m_of(rng), inc: rng.below(inc_max + 3) as u8 },
+        55..=66 => Step::MsgSuspect { from: rng.below(3) as u8, m: m_of(rng), inc: rng.below(inc_max + 2) as u8 },
+        67..=76 => Step::SuspectNode { r: 0, m: m_of(rng) },
+        77..=84 => Step::MsgPingAck { from: rng.below(3) as u8, m: m_of(rng), ok: rng.chance(3, 4) },
+        85..=92 => Step::Round { r: 0 },
+        _ => Step::Advance { ms: *rng.pick(&[100u32, 300, 600, 1200]) },
+    }
+}
+
+fn gen_c(rng: &mut Rng) -> Case {
+    let members = rng.range(2, 4) as u8;
+    let n_upd = rng.range(0, 8) as usize;
+    let (updates, inc_max) = gen_updates(rng, members, n_upd);
+    let nthreads = match rng.below(20) {
+        0..=1 => 1,
+        2..=12 => 2,
+        _ => 3,
+    };
+    let steps: Vec<Step> = (0..rng.below(5)).map(|_| gen_c_op(rng, members, n_upd, inc_max)).collect();
+    let threads: Vec<Vec<Step>> =
+        (0..nthreads).map(|_| (0..rng.range(1, 5)).map(|_| gen_c_op(rng, members, n_upd, inc_max)).collect()).collect();
+    let stick = *rng.pick(&[0u64, 50, 80, 92]);
+    let schedule = if nthreads > 1 { sched::gen_schedule(rng, 40 + 60 * nthreads, stick) } else { Vec::new() };
+    Case {
+        mode: Mode::Threads,
+        members,
+        replicas: 1,
+        updates,
+        steps,
+        fanout: rng.range(1, 3) as u8,
+        max_states: 20,
+        susp_ms: *rng.pick(&[300u32, 500, 1000]),
+        threads,
+        schedule,
     }
 }
 
@@ -935,8 +1417,8 @@ fn gen_b(rng: &mut Rng) -> Case {
 fn without_update(case: &Case, k: usize) -> Case {
     let mut c = case.clone();
     c.updates.remove(k);
-    for s in &mut c.steps {
-        if let Step::Deliver { items, .. } = s {
+    for s in c.steps.iter_mut().chain(c.threads.iter_mut().flatten()) {
+        if let Step::Deliver { items, .. } | Step::MsgSync { items, .. } = s {
             items.retain(|i| *i as usize != k);
             for i in items.iter_mut() {
                 if *i as usize > k {
@@ -946,6 +1428,36 @@ fn without_update(case: &Case, k: usize) -> Case {
         }
     }
     c
+}
+
+/// per-step simplifications of configuration C calls
+fn simpler_c_step(s: &Step) -> Vec<Step> {
+    let mut v = Vec::new();
+    match s {
+        Step::MsgSync { from, items, time } => {
+            for it in drop_chunks(items) {
+                v.push(Step::MsgSync { from: *from, items: it, time: *time });
+            }
+            if *time > 0 {
+                v.push(Step::MsgSync { from: *from, items: items.clone(), time: 0 });
+            }
+            if *from > 0 {
+                v.push(Step::MsgSync { from: 0, items: items.clone(), time: *time });
+            }
+        },
+        Step::MsgAlive { m, inc } if *inc > 0 => v.push(Step::MsgAlive { m: *m, inc: inc - 1 }),
+        Step::MsgSuspect { from, m, inc } => {
+            if *inc > 0 {
+                v.push(Step::MsgSuspect { from: *from, m: *m, inc: inc - 1 });
+            }
+            if *from > 0 {
+                v.push(Step::MsgSuspect { from: 0, m: *m, inc: *inc });
+            }
+        },
+        Step::MsgPingAck { from, m, ok } if *from > 0 => v.push(Step::MsgPingAck { from: 0, m: *m, ok: *ok }),
+        _ => {},
+    }
+    v
 }
 
 impl Scenario for C17 {
@@ -964,20 +1476,26 @@ impl Scenario for C17 {
     }
     fn generate(&self, rng: &mut Rng, _tier: Tier, _index: u64) -> Case {
         match rng.below(20) {
-            0..=10 => gen_a(rng, Mode::Merge),
-            11..=16 => gen_a(rng, Mode::Local),
-            _ => gen_b(rng),
+            0..=8 => gen_a(rng, Mode::Merge),
+            9..=13 => gen_a(rng, Mode::Local),
+            14..=16 => gen_b(rng),
+            _ => gen_c(rng),
         }
     }
 
     fn run(&self, case: &Case, ctx: &Arc<RunCtx>) -> RunOut {
+        // threads are switched only at this scenario's own sites and at the lock
+        // acquisitions of tensor_chain (gossip.rs takes its locks from crate::sync_compat)
+        sched::set_allowed_sites(&["c17.", "tensor_chain."]);
         ctx.fp(match case.mode {
             Mode::Merge => "merge",
             Mode::Local => "local",
             Mode::Manager => "manager",
+            Mode::Threads => "threads",
         });
         match case.mode {
             Mode::Manager => run_b(case, ctx),
+            Mode::Threads => run_c(case, ctx),
             _ => run_a(case, ctx),
         }
     }
@@ -988,6 +1506,35 @@ impl Scenario for C17 {
             let mut c = case.clone();
             c.steps = steps;
             v.push(c);
+        }
+        // configuration C: fewer threads, shorter programs, a plainer schedule
+        if case.mode == Mode::Threads {
+            for t in 0..case.threads.len() {
+                let mut c = case.clone();
+                c.threads.remove(t);
+                v.push(c);
+            }
+            for (t, prog) in case.threads.iter().enumerate() {
+                for p in drop_chunks(prog) {
+                    let mut c = case.clone();
+                    c.threads[t] = p;
+                    v.push(c);
+                }
+            }
+            for sch in drop_chunks(&case.schedule) {
+                let mut c = case.clone();
+                c.schedule = sch;
+                v.push(c);
+            }
+            // a thread's first call moved into the sequential prefix
+            for t in 0..case.threads.len() {
+                if !case.threads[t].is_empty() {
+                    let mut c = case.clone();
+                    let s = c.threads[t].remove(0);
+                    c.steps.push(s);
+                    v.push(c);
+                }
+            }
         }
         // drop updates of the multiset
         for k in 0..case.updates.len() {
@@ -1008,7 +1555,7 @@ impl Scenario for C17 {
             }
         }
         // renumber a replica to an unused smaller id (lets `replicas - 1` succeed afterwards)
-        if case.mode != Mode::Manager {
+        if case.mode != Mode::Manager && case.mode != Mode::Threads {
             let n = case.replicas.max(1);
             let mut used = BTreeSet::new();
             for s in &case.steps {
@@ -1061,7 +1608,7 @@ impl Scenario for C17 {
             c.replicas -= 1;
             v.push(c);
         }
-        if case.members > 1 && case.mode != Mode::Manager {
+        if case.members > 1 && case.mode != Mode::Manager && (case.mode != Mode::Threads || case.members > 2) {
             let mut c = case.clone();
             c.members -= 1;
             v.push(c);
@@ -1113,6 +1660,31 @@ impl Scenario for C17 {
                 },
                 _ => {},
             }
+            if case.mode == Mode::Threads {
+                for simpler in simpler_c_step(s) {
+                    let mut c = case.clone();
+                    c.steps[i] = simpler;
+                    v.push(c);
+                }
+            }
+        }
+        if case.mode == Mode::Threads {
+            for (t, prog) in case.threads.iter().enumerate() {
+                for (i, s) in prog.iter().enumerate() {
+                    for simpler in simpler_c_step(s) {
+                        let mut c = case.clone();
+                        c.threads[t][i] = simpler;
+                        v.push(c);
+                    }
+                }
+            }
+            for (i, p) in case.schedule.iter().enumerate() {
+                if *p != sched::STAY {
+                    let mut c = case.clone();
+                    c.schedule[i] = sched::STAY;
+                    v.push(c);
+                }
+            }
         }
         v
     }
@@ -1135,10 +1707,19 @@ impl Scenario for C17 {
             "mgr_failed_recorded",
             "mgr_self_refute_announced",
             "mgr_alive_applied",
+            // configuration C
+            "thr_calls_overlapped",
+            "thr_calls_about_same_member_overlapped",
+            "thr_preempted_at_manager_lock",
+            "thr_incarnation_raised",
+            "thr_incarnation_raised_under_inflight_call",
+            "thr_sync_changed_view",
+            "thr_alive_changed_view",
+            "thr_failed_recorded",
         ]
     }
     fn rule(&self) -> String {
-        "A case is (Merge/Local) a multiset of <=12 node-state updates over 2-4 members (incarnation 0..2, timestamp 0..3, all four health values, ties injected on purpose) plus, per replica (2-4 real LWWMembershipState), a delivery plan = permutation + duplicates + batching given as explicit merge steps, in Local mode interleaved with suspect/fail/refute/mark_healthy/update_local and replica-to-replica sync steps; or (Manager) 2-4 real GossipMembershipManager on SimTransport driven by 10-45 steps (gossip_round, suspect_node, clock advance, deliver/drop/duplicate of a picked in-flight message). inner_enumerated_points counts same-received-set view comparisons (clause 1). Non-trivial: Merge = at least one such comparison was made; Local = at least one local event took effect; Manager = at least one delivered Sync changed the receiver's view. Distinct: hash of (mode, sequence of step kinds with batch size / changed-count / outcome class).".into()
+        "A case is (Merge/Local) a multiset of <=12 node-state updates over 2-4 members (incarnation 0..2, timestamp 0..3, all four health values, ties injected on purpose) plus, per replica (2-4 real LWWMembershipState), a delivery plan = permutation + duplicates + batching given as explicit merge steps, in Local mode interleaved with suspect/fail/refute/mark_healthy/update_local and replica-to-replica sync steps; or (Manager) 2-4 real GossipMembershipManager on SimTransport driven by 10-45 steps (gossip_round, suspect_node, clock advance, deliver/drop/duplicate of a picked in-flight message); or (Threads) ONE real GossipMembershipManager n0 with 1-3 peers that is handed the case's updates as the messages a node receives (Sync{sender, any sub-multiset of <=8 updates, sender_time}, Alive, Suspect, PingAck) and local events (suspect_node, gossip_round incl. suspicion expiry, clock advance): 0-4 calls sequentially, then 1-3 scheduled threads with 1-5 calls each into the same manager, switched at the manager's lock acquisitions according to the schedule in the case; clauses (2)/(3) judged on the view each thread reads after each completed call. inner_enumerated_points counts same-received-set view comparisons (clause 1). Non-trivial: Merge = at least one such comparison was made; Local = at least one local event took effect; Manager = at least one delivered Sync changed the receiver's view; Threads = the observed view changed at least once and (with 2+ threads) two calls overlapped. Distinct: hash of (mode, sequence of step kinds with batch size / changed-count / outcome class).".into()
     }
     fn components(&self) -> Value {
         json!({
@@ -1146,12 +1727,14 @@ impl Scenario for C17 {
                 "tensor_chain::gossip::LWWMembershipState (merge, sync_time, suspect, fail, refute, mark_healthy, update_local, states_for_gossip)",
                 "tensor_chain::gossip::GossipNodeState::supersedes",
                 "tensor_chain::gossip::GossipMembershipManager (new, add_peer, gossip_round, suspect_node, handle_gossip: Sync/Suspect/Alive/PingReq/PingAck, expire_suspicions, broadcast_alive)",
-                "tokio current-thread runtime (no I/O, no time driver) as executor of the manager's tokio::spawn'ed sends, drained after every step"
+                "tokio current-thread runtime (no I/O, no time driver) as executor of the manager's tokio::spawn'ed sends, drained after every step (configuration C: after every sequential step and after the threads have finished)",
+                "configuration C: the manager's own RwLocks (state, suspicions, known_peers, callbacks, flap_tracker) through tensor_chain::sync_compat, whose acquisitions are the schedule points `tensor_chain.lock`"
             ],
             "simulated": [
                 "network: net::SimTransport, delivery/drop/duplication/reordering from the step list",
                 "clock: Instant/SystemTime interposed, advanced by steps",
-                "getrandom (HashMap order) from the run seed"
+                "getrandom (HashMap order) from the run seed",
+                "configuration C: thread interleaving = sched::run_threads baton, one thread at a time, switches only at `tensor_chain.lock*` and `c17.op`, decided by the case's schedule; peers n1.. exist only as senders named in the messages"
             ],
             "stub": ["Message::Ping of the indirect probe is discarded at delivery (answered by the transport layer in production)"]
         })
@@ -1163,6 +1746,8 @@ impl Scenario for C17 {
             "update_local is used the way the manager uses it: on the replica's own member, Healthy, with the member's own non-decreasing counter".into(),
             "clause (1) compares health and incarnation (the statement's words); a timestamp-only difference is an observation".into(),
             "GossipMembershipManager::run (tokio select!/sleep loop) is not used: the step list calls gossip_round itself".into(),
+            "configuration C: overlapping calls of several threads into one manager are deliveries 'in any order and grouping, interleaved with local events' at the granularity of the manager's own critical sections (the manager is Sync, all entry points take &self, run() and the transport's receive tasks call it from different threads), so its violations are verdicts; a node's view is what membership_view()/lamport_time() return to a caller between two calls".into(),
+            "configuration C: an Alive{m, inc} message counts as m's announcement of inc from the moment the delivering call starts".into(),
         ]
     }
 }
